@@ -80,7 +80,7 @@ def generate(seed: int, tier: str = "quick") -> dict:
         pre.hit("giant_frame_wires")
     spans = sched.spans_of(frames)
     wire_len = spans[-1][1] if spans else 0
-    tr = common.draw_transport(r_sch, wire_len, spans, kinds=("socket",))
+    tr = common.draw_transport(r_sch, wire_len, spans, kinds=("socket", "socket", "socket", "socket", "tlssocket"))
     cfg["bufsize"] = r_sch.choice(sched.BUFSIZES)
     if wire_len > 60000:
         cfg["bufsize"] = r_sch.choice((64, 1024, 4096, 4096, 65536))
@@ -154,6 +154,7 @@ def _run_reader_case(scn, res=None):
         c = res.counters
         tr = scn["transport"]
         c.hit("end_" + str(tr.get("end")))
+        c.hit("kind_" + str(tr.get("kind")))
         c.hit(f"bufsize_{cfg.get('bufsize')}")
         spans = sched.spans_of(scn["frames"])
         off = 0
@@ -198,6 +199,7 @@ def _run_model_case(scn, res=None):
     pos = 0  # model: bytes consumed so far
     verdict = None
     try:
+        core.VirtualClock.source = sock
         sw = SocketWrapper(sock, bufsize=scn["bufsize"])
         for i, call in enumerate(scn["calls"]):
             remaining = wire[pos:]
@@ -236,6 +238,8 @@ def _run_model_case(scn, res=None):
         verdict = ("wrapper_hangs", str(err))
     except Exception as err:  # pylint: disable=broad-except
         verdict = ("wrapper_raises", f"{type(err).__name__}: {err}")
+    finally:
+        core.VirtualClock.source = None
     if res is not None:
         res.evaluations += 1
         res.counters.hit("model_runs")
